@@ -46,6 +46,7 @@ type End struct {
 	// that crosses the boundary accepts only up to it and fails (Short: returns
 	// a short count with a nil error instead)
 	FailAt   int
+	Transient bool // only the write that crosses FailAt fails; later ones succeed again (e.g. a write deadline that expired once)
 	Short    bool
 	FailErr  error
 	written  int
@@ -131,6 +132,9 @@ func (e *End) Write(p []byte) (int, error) {
 	var err error
 	if e.FailAt >= 0 && e.written+n > e.FailAt {
 		n = max(e.FailAt-e.written, 0)
+		if e.Transient {
+			defer func() { e.FailAt = -1 }()
+		}
 		if !e.Short {
 			err = e.FailErr
 			if err == nil {
